@@ -43,7 +43,8 @@ RULE = (
     "inf query, huge-radius query, points setter, weights setter, selection (+ query on the selected grid)}; instance kinds: Grid 1-D "
     "(flat and (N,1)), 2-D, 3-D, all 26 OneDGrid rule classes + custom OneDGrid, AtomGrid (non-zero centre; constructor, from_pruned, "
     "from_preset), MolGrid, UniformGrid 2-D/3-D, Tensor1DGrids 2-D/3-D, PeriodicGrid without lattice 1-3-D, AngularGrid (4 methods), "
-    "LocalGrid (nested). Setters are used only where the class offers them (AtomGrid.points is read-only). Selection family: every index "
+    "LocalGrid (nested). Weight vectors by class (uniform, positive, negative, some/mostly/all exact zeros of both signs, denormal/1e-300, "
+    "1e300, int64, int32) at construction and through the weights setter: membership must depend on geometry only and weights are exact copies. Setters are used only where the class offers them (AtomGrid.points is read-only). Selection family: every index "
     "kind (int, np.int8..64/uint, slice incl. negative step, index array, list, boolean mask, empty) x (Grid 1-3-D, OneDGrid rules, "
     "PeriodicGrid 1-3-D with 0..dim lattice vectors, wrapped or not). Witness family: deterministic regressions of the four repaired "
     "defects. A case is non-trivial when at least one oracle evaluation was made."
@@ -148,9 +149,11 @@ def check_localgrid(ctx, g, center, radius, lg, exc):
     extra = got & ~may
     nm, ne = int(missing.sum()), int(extra.sum())
     sig = ("missing-points" if nm else "") + ("+" if nm and ne else "") + ("extra-points" if ne else "")
+    if nm and w.shape == (n,) and bool(np.all(w[missing] == 0)):
+        sig += ":all-zero-weight"  # membership depends on the weights instead of geometry only
     det = None
     if nm or ne:
-        det = {"N": n, "radius": float(radius), "center": c, "n_expected": int(must.sum()), "n_got": int(idx.size), "missing": nm, "extra": ne}
+        det = {"N": n, "radius": float(radius), "center": c, "n_expected": int(must.sum()), "n_got": int(idx.size), "missing": nm, "extra": ne, "n_zero_weights": int(np.sum(w == 0)), "weights_dtype": str(w.dtype)}
         if nm:
             det["missing_dist_over_r"] = float(dist[missing].max() / radius) if radius not in (0, np.inf) else float(dist[missing].max())
         if ne:
@@ -167,7 +170,8 @@ def check_localgrid(ctx, g, center, radius, lg, exc):
     if ctx.check("weights-match-parent", subj, lw.shape == (idx.size,), sig="shape" + tail, detail={"shape": list(lw.shape)}):
         wscale = 1.0 + (float(np.abs(w).max()) if w.size else 0.0)
         dw = float(np.abs(lw - w[idx]).max()) / wscale if idx.size else 0.0
-        ctx.check("weights-match-parent", subj, dw, TOL_COPY, sig="values" + tail, detail={"max_rel_diff": dw})
+        exact = bool(np.array_equal(lw, w[idx]))  # weights are copies: exact, also for denormal / integer weights
+        ctx.check("weights-match-parent", subj, 0.0 if exact else max(dw, 2 * TOL_COPY), TOL_COPY, sig="values" + tail, detail={"max_rel_diff": dw, "dtype": str(lw.dtype), "parent_dtype": str(w.dtype)})
     ctx.check("size-consistent", subj, int(lg.size) == int(idx.size), sig="size" + tail, detail={"size": int(lg.size), "n_idx": int(idx.size)})
     try:
         lc = np.asarray(lg.center)
@@ -351,7 +355,7 @@ SEL_TARGETS = (
 )
 SEL_KINDS = ["int", "negint", "np.int8", "np.int16", "np.int32", "np.int64", "np.uint8", "np.uint64", "np.intp", "slice", "slice-step", "slice-neg", "slice-empty", "intarray", "intarray-rep", "intarray-neg", "int32array", "list", "boolmask", "boolmask-none", "empty-array"]
 
-WITNESSES = ["empty-ball", "numpy-int-index", "stale-tree", "atomgrid-centre", "inf-and-huge", "duplicates-and-ties", "size-one", "weights-follow"]
+WITNESSES = ["empty-ball", "numpy-int-index", "stale-tree", "atomgrid-centre", "inf-and-huge", "duplicates-and-ties", "size-one", "weights-follow", "zero-weights"]
 
 
 def cases(tier, seed):
@@ -392,6 +396,39 @@ def _rand_points(rng, n, dim):
         t = np.sort(rng.uniform(-1, 1, n))
         p = np.outer(t, rng.normal(size=dim)) + rng.normal(size=dim)
     return np.ascontiguousarray(p)
+
+
+WEIGHT_STYLES = ["uniform", "positive", "negative", "some-zeros", "mostly-zeros", "all-zero", "tiny-denormal", "huge", "int64", "int32"]
+WEIGHT_P = [0.22, 0.1, 0.08, 0.2, 0.08, 0.04, 0.1, 0.04, 0.09, 0.05]
+
+
+def rand_weights(ctx, rng, n, allow_int=True):
+    """Weight vectors by class: membership of a local grid must depend on geometry only, never on the weights."""
+    style = str(rng.choice(WEIGHT_STYLES, p=WEIGHT_P))
+    if not allow_int and style.startswith("int"):
+        style = "some-zeros"
+    ctx.count("weights:" + style)
+    if style == "uniform":
+        return rng.uniform(-1, 2, n)
+    if style == "positive":
+        return rng.uniform(0.01, 2, n)
+    if style == "negative":
+        return -rng.uniform(0.01, 2, n)
+    if style in ("some-zeros", "mostly-zeros", "all-zero"):
+        w = rng.uniform(-1, 2, n)
+        frac = {"some-zeros": rng.uniform(0.1, 0.6), "mostly-zeros": 0.9, "all-zero": 1.1}[style]
+        z = rng.random(n) < frac
+        if style == "some-zeros" and n > 0:
+            z[int(rng.integers(n))] = True
+        w[z] = np.where(rng.random(int(z.sum())) < 0.5, 0.0, -0.0)  # exact zeros of both signs
+        return w
+    if style == "tiny-denormal":
+        return rng.choice(np.array([1e-300, -1e-300, 5e-324, -5e-324, 2.2250738585072014e-308, 1e-320, 1.0, 0.0]), n)
+    if style == "huge":
+        return rng.choice(np.array([1e300, -1e300, 1e-300, 1.0, 0.0]), n)
+    if style == "int64":
+        return rng.integers(-2, 4, n).astype(np.int64)
+    return rng.integers(0, 3, n).astype(np.int32)
 
 
 def _rand_n(rng):
@@ -467,7 +504,7 @@ def build(ctx, p):
         dim = int(dimcode[0])
         n = _rand_n(rng)
         pts = _shape_points(_rand_points(rng, n, dim), dimcode)
-        w = rng.uniform(-1, 2, n)
+        w = rand_weights(ctx, rng, n)
         if kind == "Grid":
             return Grid(pts, w)
         if kind == "PeriodicGrid0":
@@ -494,7 +531,7 @@ def build(ctx, p):
         pts = _rand_points(rng, n, 1)[:, 0]
         dom = rng.integers(3)
         domain = None if dom == 0 else ((float(pts.min()) - 1.0, float(pts.max()) + 0.5) if dom == 1 else (float(pts.min()), np.inf))
-        return OneDGrid(pts, rng.uniform(0, 1, n), domain)
+        return OneDGrid(pts, rand_weights(ctx, rng, n), domain)
     if kind == "AtomGrid":
         return _atomgrid(rng, p["via"])
     if kind == "MolGrid":
@@ -682,7 +719,7 @@ def do_set_points(ctx, g):
 def do_set_weights(ctx, g):
     rng = ctx.rng
     old = np.asarray(g.weights)
-    new = rng.uniform(-1, 3, old.shape) if rng.random() < 0.7 else old[::-1].copy() * 2.0
+    new = rand_weights(ctx, rng, old.shape[0]) if rng.random() < 0.7 else old[::-1].copy() * 2
     with ctx.guard("setter-accepts-same-shape", subject_of(g) + ".weights"):
         g.weights = new
         mark(g, "weights-reassign")
@@ -874,11 +911,11 @@ def build_selection_target(ctx, p):
     if t == "OneDGrid":
         pts = np.sort(rng.uniform(0.0, 5.0, n))
         dom = {"none": None, "finite": (-0.5, 5.5), "semi": (0, np.inf)}[p["domain"]]
-        return OneDGrid(pts, rng.uniform(0, 1, n), dom)
+        return OneDGrid(pts, rand_weights(ctx, rng, n), dom)
     dimcode = str(p["dim"])
     dim = int(dimcode[0])
     pts = _shape_points(rng.uniform(-3, 3, (n, dim)), dimcode)
-    w = rng.uniform(0, 1, n)
+    w = rand_weights(ctx, rng, n)
     if t == "Grid":
         return Grid(pts, w)
     nl = int(p["nl"])
@@ -1015,5 +1052,34 @@ def run_witness(ctx, name):
             _call(ctx, lambda: g.get_localgrid(c, 0.8 * ext))
             if "Periodic" not in key:
                 _call(ctx, lambda: g.get_localgrid(c, np.inf))
+    elif name == "zero-weights":
+        # membership must not depend on the weights: exact zeros of both signs, negative, denormal, integer weights
+        wz = {
+            "zeros": lambda n: np.where(np.arange(n) % 3 == 0, 0.0, np.where(np.arange(n) % 3 == 1, -0.0, 1.5)),
+            "all-zero": lambda n: np.zeros(n),
+            "negative": lambda n: -np.linspace(0.5, 1.5, n),
+            "tiny": lambda n: np.where(np.arange(n) % 2 == 0, 5e-324, 1e-300),
+            "int": lambda n: (np.arange(n) % 3).astype(np.int64),
+        }
+        for wname, mkw in wz.items():
+            for g in (Grid(p1.copy(), mkw(25)), Grid(p2.copy(), mkw(30)), Grid(p3.copy(), mkw(40)), OneDGrid(np.sort(p1) + 1.0, mkw(25), (0, np.inf)), PeriodicGrid(p3.copy(), mkw(40)), PeriodicGrid(p1.copy(), mkw(25))):
+                p = np.asarray(g.points)
+                c = p[0] if p.ndim == 2 else float(p[0])
+                for r in (0.3, 0.9, 5.0):
+                    _call(ctx, lambda: g.get_localgrid(c, r))
+                if "Periodic" not in type(g).__name__:
+                    _call(ctx, lambda: g.get_localgrid(c, np.inf))
+                _call(ctx, lambda: g[::2])
+        for g in (at, grids["MolGrid"], ug, tg, grids["GaussLegendre"]):
+            wnew = np.asarray(g.weights).copy()
+            wnew[::2] = 0.0
+            wnew[1::4] = -0.0
+            g.weights = wnew
+            mark(g, "weights-reassign")
+            p = np.asarray(g.points)
+            c = p[0] if p.ndim == 2 else float(p[0])
+            ext = float(np.abs(p - p.mean(axis=0)).max())
+            for r in (0.5 * ext, 3.0 * ext, np.inf):
+                _call(ctx, lambda: g.get_localgrid(c, r))
     else:
         raise core.MonitorError("unknown witness " + name)
